@@ -2,6 +2,7 @@ import CfbVerif.Phys.Mini
 import CfbVerif.Phys.Api
 import CfbVerif.Spec.Check
 import CfbVerif.Props.C15
+import CfbVerif.Phys.ApiInv
 import CfbVerif.Props.C01
 /-!
 # C03 — every produced image is a well-formed MS-CFB file by an independent checker
